@@ -139,7 +139,29 @@ def oracle_env(case, ctx):
                     ctx.fail(f'functional_observation[{case["f"]}] of {what}: view cell {(i, j)} shows {c} but the world cell holds {full["grid"][i][j]}', {'kind': 'soundness', 'f': case['f']})
         if od['agent'][3] != d['agent'][3]:
             ctx.fail(f'functional_observation of {what}: held item {d["agent"][3]} reported as {od["agent"][3]}', {'kind': 'soundness'})
-    ctx.ev.case(case, nt=True, classes=['f:' + case['f'], 'memoised_then_lookalike'])
+    # one State object, observed, then edited in place by its owner (a cell through grid[pos] = obj, the pose), observed again
+    import copy
+    from gym_gridverse.geometry import Position
+    s = objs.build_state(sd)
+    guarded(ctx, 'functional_observation', env.functional_observation, s)
+    d2 = copy.deepcopy(sd)
+    f = M.front(d2)
+    p = f if M.in_grid(d2, f) else (0, 0)
+    if p != (d2['agent'][0], d2['agent'][1]):
+        new = 'K:NONE' if d2['grid'][p[0]][p[1]] != 'K:NONE' else 'F'
+        d2['grid'][p[0]][p[1]] = new
+        s.grid[Position(*p)] = objs.build_obj(new)
+    for turn in range(2):
+        od = objs.canon_state(guarded(ctx, 'functional_observation', env.functional_observation, s))
+        full = M.full_view(d2, area)
+        for i, row in enumerate(od['grid']):
+            for j, c in enumerate(row):
+                if c != 'H' and c != full['grid'][i][j]:
+                    ctx.fail(f'functional_observation[{case["f"]}] of a state object observed before and then edited in place ({"cell " + str(p) if turn == 0 else "cell and heading"}): '
+                             f'view cell {(i, j)} shows {c} but the world cell holds {full["grid"][i][j]}', {'kind': 'soundness', 'f': case['f'], 'aspect': 'edited_in_place'})
+        d2['agent'][2] = M.turn(d2['agent'][2], 1)
+        s.agent.orientation = objs.ori(d2['agent'][2])
+    ctx.ev.case(case, nt=True, classes=['f:' + case['f'], 'memoised_then_lookalike', 'observed_edited_observed'])
 
 
 CHECKS = [
@@ -148,6 +170,6 @@ CHECKS = [
                'against the model view-cell -> world-cell map; a look-alike world (different box contents) is observed first',
           required=['view_off_grid', 'rotated_asymmetric', 'ymax!=0', 'box_lookalike_history', 'view==grid', 'heading:L', 'heading:B', 'heading:R']),
     Check('gridworld_functional_observation', oracle_env, strategy=strat_env, examples={'quick': 300, 'thorough': 1200}, shards={'quick': 2, 'thorough': 8},
-          rule='GridWorld assembled from built-ins, reset and its own observation read (memoised); then functional_observation of a look-alike state (== under the repository equality, other box contents) and of an equal copy against the model',
-          required=['memoised_then_lookalike']),
+          rule='GridWorld assembled from built-ins, reset and its own observation read (memoised); then functional_observation of a look-alike state (== under the repository equality, other box contents) and of an equal copy against the model; one State object observed, edited in place (cell, heading), observed again',
+          required=['memoised_then_lookalike', 'observed_edited_observed']),
 ]
